@@ -20,7 +20,7 @@ EXHAUSTIVE_NOTE = "ASCII-in-host table and the NFKC-delimiter set (computed from
 ASSUMPTIONS = ["grammar validation of hosts given to the constructor / build(authority=) is not demanded beyond the NFKC screen", "case of an IPv6 zone id is kept"]
 
 REGNAME_OK = re.compile(r"(?:[a-z0-9\-._~!$&'()*+,;=]|%[0-9a-f]{2})*\Z")
-ROUTES = ["ctor", "build.host", "build.authority", "with_host"]
+ROUTES = ["ctor", "build.host", "build.authority", "with_host", "ctor.defaultport", "ctor.userinfo", "with_host.defaultport"]
 
 
 def make(Y, route, text):
@@ -34,6 +34,12 @@ def make(Y, route, text):
         return Y.URL.build(scheme="http", authority=text, path="/p")
     if route == "with_host":
         return Y.URL("http://x.example/p").with_host(bare)
+    if route == "ctor.defaultport":
+        return Y.URL("http://%s:80/p" % text)
+    if route == "ctor.userinfo":
+        return Y.URL("wss://u:p@%s:443/p?q#f" % text)
+    if route == "with_host.defaultport":
+        return Y.URL("https://u@x.example:443/p").with_host(bare)
     raise AssertionError(route)
 
 
@@ -88,7 +94,7 @@ def check_host(ctx, backend, route, text):
         br = "[%s]" % rh
         ctx.check(u.host_subcomponent == br and ("//" + br) in str(u).replace("@", "//") and u.host_port_subcomponent.startswith(br), "IPv6 host is not bracketed everywhere",
                   observed=[u.host_subcomponent, u.host_port_subcomponent, str(u)], expected=br, entry=route)
-    if route in ("build.host", "with_host") and ":" not in rh:
+    if route in ("build.host", "with_host", "with_host.defaultport") and ":" not in rh:
         ctx.check(REGNAME_OK.match(rh) is not None, "build(host=)/with_host() stored a host outside the reg-name grammar", observed=info, expected="reg-name or IP literal", entry=route)
     # idempotence
     try:
@@ -169,14 +175,14 @@ def nfkc_delims():
 
 
 def tables(ctx, backend):
-    for route in ROUTES:
+    for route in ROUTES[:4]:
         for ch in range(128):
             ctx.run("ascii", backend=backend, route=route, ch=ch)
     cps = nfkc_delims()
     ctx.extra["nfkc_delimiter_codepoints"] = len(cps)
     for cp in cps:
         c = chr(cp)
-        for route in ROUTES:
+        for route in ROUTES[:4]:
             for text in (c, "a" + c + "b", "a" + c, c + "b", "пример" + c + ".рф", "x." + c + ".y"):
                 ctx.run("hostile", backend=backend, route=route, text=text, where="host")
         for route in ("ctor", "build.authority"):
@@ -197,7 +203,7 @@ def all_codepoints(ctx, backend, part, nparts):
         if 0xD800 <= cp <= 0xDFFF:
             continue
         c = chr(cp)
-        for route in ROUTES:
+        for route in ROUTES[:4]:
             n += 1
             try:
                 u = make(Y, route, "a" + c + "b")
